@@ -90,6 +90,10 @@ prop("C17",
      baseline_build=True, cross_build=["C02", "C03", "C05", "C09", "C10", "C12"],
      assumptions=["the lane-wise meaning of the Intel intrinsics is observed on this CPU only; NEON is not built here"])
 
+prop("C18",
+     rule="exhaustive DFS over the interleavings of 1-3 threads at the granularity of the atomic operations of the two caches (every load and compare-exchange is a yield point of the shim; a weak compare-exchange adds a spurious-failure choice): readers of one shared LazyValue (escaped string -> Inner::parse_from) and of one shared OwnedLazyValue (LazyRaw::load) replayed step by step in the model (per-thread hit / miss+win / miss+lose); mixed readers, cloners and early droppers judged on values and on the allocation ledger (tracked allocations of the worker threads and of the shared value return to the baseline); quick tier caps each scenario at 3000 schedules",
+     assumptions=["sequential consistency: the Acquire/Release/AcqRel annotations are not checked against the C++11 memory model", "clone/drop steps are not in the model (they are covered by the ledger on the real code)"])
+
 def classify_known(pid, case, known):
     """return the id of the recorded known finding this mismatch belongs to, or None"""
     for k in known:
